@@ -166,11 +166,19 @@ func runMutantsFiltered(prop string, baseBad map[string]bool, par int, only stri
 				o.Status, o.Note = "not-applicable", "variant does not build: "+r.LoadError
 			default:
 				hit := false
+				elsewhere := map[string]bool{}
 				for _, ob := range r.Obligations {
 					if baseBad[ob.ID()] {
 						continue
 					}
 					if prop != "" && !hasProp(ob.Props, prop) {
+						// the construct the edit breaks is decided under another property's tag: the
+						// author filed the change under this property, the checks of those report it
+						if matchExpect(m.Expect, ob.ID()) {
+							for _, q := range ob.Props {
+								elsewhere[q] = true
+							}
+						}
 						continue
 					}
 					o.Reported = append(o.Reported, ob.ID())
@@ -190,6 +198,14 @@ func runMutantsFiltered(prop string, baseBad map[string]bool, par int, only stri
 					}
 				case hit:
 					o.Status = "detected"
+				case len(elsewhere) > 0:
+					var ps []string
+					for q := range elsewhere {
+						ps = append(ps, q)
+					}
+					sort.Strings(ps)
+					o.Status = "detected-by-other-check"
+					o.Note = "the expected construct is reported by the check of " + strings.Join(ps, ", ") + ", under which the rule that decides it is filed"
 				default:
 					o.Status = "missed"
 				}
